@@ -2,7 +2,8 @@
 import json,jsonschema,glob,sys
 jsonschema.validate(json.load(open('/verif/MANIFEST.json')),json.load(open('/root/.vp/MANIFEST.schema.json')))
 s=json.load(open('/root/.vp/EVIDENCE.schema.json'))
-for f in sorted(glob.glob('/verif/evidence/*.json')):
+bad=0
+for f in sorted(glob.glob('/verif/evidence/C*.json')):
     try: jsonschema.validate(json.load(open(f)),s)
-    except Exception as e: print('INVALID',f,str(e)[:300]); sys.exit(1)
-print('valid')
+    except Exception as e: print('INVALID',f,str(e)[:300]); bad+=1
+print('valid' if not bad else '%d invalid'%bad); sys.exit(1 if bad else 0)
